@@ -428,6 +428,42 @@ theorem emitted_conforms (c : Core) (op : Op) (hw : op.wf c = true) :
           have := rep3_of_all_mod3 _ hall (by rw [hlace]; simp)
           simp [grammarOk, bGenOk, ai_isInt, this]
       · simp at ha
+  | subbus h off ch =>
+    simp only [Core.stepCore] at hp
+    split at hp
+    · simp [Core.skip] at hp
+    · split at hp
+      · split at hp
+        · simp [Core.exc] at hp
+        · simp at hp
+      · simp [Core.exc] at hp
+  | bread h fs fr bs lo =>
+    simp only [Core.stepCore] at hp
+    split at hp
+    · have := send_msg hp hm; subst this
+      cases lo <;> simp [grammarOk, ai_isInt, Arg.isStr, Arg.isFlag, complTail, as]
+    · simp [Core.skip] at hp
+  | bloadlist h start =>
+    simp only [Core.stepCore] at hp
+    split at hp
+    · have := send_msg hp hm; subst this
+      simp [grammarOk, ai_isInt, Arg.isStr, Arg.isFlag, complTail, as]
+    · simp [Core.skip] at hp
+  | bwrite h hdr frames start lo cm =>
+    obtain ⟨i, a, ha, rfl⟩ := bufCmd_msg hp hm
+    cases lo <;> simp [grammarOk, ai_isInt, Arg.isStr, Arg.isFlag, complTail_complArg, as]
+  | ballocread h start frames cm =>
+    simp only [Core.stepCore] at hp
+    split at hp
+    · have := send_msg hp hm; subst this
+      simp [grammarOk, ai_isInt, Arg.isStr, complTail_complArg, as]
+    · simp [Core.skip] at hp
+  | bcue h start cm =>
+    simp only [Core.stepCore] at hp
+    split at hp
+    · have := send_msg hp hm; subst this
+      simp [grammarOk, ai_isInt, Arg.isStr, Arg.isFlag, complTail_complArg, as]
+    · simp [Core.skip] at hp
   | register h =>
     simp only [Core.stepCore] at hp
     split at hp
@@ -827,6 +863,30 @@ theorem free_all_frees_every_id_once (c : Core) (bs : List Block) (hinv : Inv c.
       refine ⟨u, by rw [hb]; exact List.mem_filter.mpr ⟨hu, by simpa using huu⟩, (x - u.start).toNat, by omega, by omega⟩
 
 
+/-- `bus.sub_bus(off, ch)` / `Bus.new_from`: accepted exactly when the requested channels lie inside
+    the parent (`off + ch ≤ channels`, `off ≤ channels`); the new bus then starts at `index + off`
+    and (for `0 ≤ off`) covers only indices of the parent; otherwise it is refused (BusException) and
+    nothing changes.  No command is sent either way. -/
+theorem sub_bus_inside_parent (c : Core) (h : Nat) (off ch : Int) (b : BusObj) (i pc : Int)
+    (hb : c.buses[h]? = some b) (hi : b.index = some i) (hc : b.channels = some pc) :
+    (off ≤ pc ∧ ch + off ≤ pc →
+      c.stepCore (.subbus h off ch) =
+        ({ c with buses := c.buses ++ [⟨b.audio, some (i + off), some ch⟩] }, .okBus (i + off), []) ∧
+      (0 ≤ off → i ≤ i + off ∧ (i + off) + ch ≤ i + pc)) ∧
+    (¬(off ≤ pc ∧ ch + off ≤ pc) → c.stepCore (.subbus h off ch) = c.exc "BusException") := by
+  constructor
+  · intro hin
+    refine ⟨?_, fun h0 => ⟨by omega, by omega⟩⟩
+    simp only [Core.stepCore, hb, hi, hc]
+    rw [if_neg]
+    simp only [Bool.or_eq_true, decide_eq_true_eq]
+    omega
+  · intro hout
+    simp only [Core.stepCore, hb, hi, hc]
+    rw [if_pos]
+    simp only [Bool.or_eq_true, decide_eq_true_eq]
+    omega
+
 /-- every node command is addressed to the id of the object it was called on -/
 theorem node_cmds_use_object_id {c : Core} {h : Nat} {cmd : String} {args : Option (List Arg)}
     {p : Packet} {m : Msg} (hp : p ∈ (c.nodeCmd h cmd args).2.2) (hm : m ∈ p.msgs) :
@@ -1059,6 +1119,19 @@ theorem corewf_step (c : Core) (op : Op) (h : CoreWf c) (ha : op.allocOk = true)
     split
     · exact h
     · split <;> exact h
+  | subbus hh off ch =>
+    simp only [Core.stepCore]
+    split
+    · exact h
+    · split
+      · split
+        · exact h
+        · exact ⟨h.balloc, h.cbus, h.abus⟩
+      · exact h
+  | bread hh fs fr bs lo => simp only [Core.stepCore]; split <;> exact h
+  | bloadlist hh start => simp only [Core.stepCore]; split <;> exact h
+  | ballocread hh start frames cm => simp only [Core.stepCore]; split <;> exact h
+  | bcue hh start cm => simp only [Core.stepCore]; split <;> exact h
   | register hh => simp only [Core.stepCore]; split <;> exact h
   | sync => exact h
   | bind => exact h
